@@ -18,6 +18,7 @@ GROUP_CFG = {
 
 KINDS = [
     (re.compile(r'postcondition not satisfied'), 'post'),
+    (re.compile(r'unable to prove post-condition of closure'), 'closure'),
     (re.compile(r'precondition not satisfied'), 'pre'),
     (re.compile(r'possible arithmetic underflow/overflow'), 'overflow'),
     (re.compile(r'possible division by zero'), 'divzero'),
@@ -213,7 +214,7 @@ def classify(d, mp, woven_name, lines):
 
 
 def run_group(group, repo='/repo', outdir=None, seed=0, rlimit=None, extra_args=(), log_air=True, timeout=1800):
-    outdir = outdir or os.path.join(VERIF, 'build')
+    outdir = outdir or os.environ.get('VERIF_BUILD') or os.path.join(VERIF, 'build')
     t0 = time.time()
     res = dict(group=group, status='ok', reason=None, diags=[], undecided=[], units=[], obligations={}, time_s=0.0)
     try:
